@@ -79,6 +79,11 @@ class C05(PropBase):
             cases.append({"g": {"nodes": [0, 1], "dir": [[0, 1]], "bid": [[0, 1]]}, "X": [0], "Y": [1], "domains": [{"Z": [0], "W": [1]}]})
         nmax = 5 if tier == "quick" else 6
         while len(cases) < n:
+            if rng.random() < 0.35:
+                c = self.multi_domain_case(rng)
+                if c:
+                    cases.append(c)
+                continue
             g = GG.rand_admg(rng, 2, nmax)
             X, Y = gen_query(rng, g)
             if rng.random() < 0.55:   # prefer queries that ID alone cannot answer, so that the surrogates matter
@@ -98,6 +103,28 @@ class C05(PropBase):
                         doms.append({"Z": Z, "W": W})
             cases.append({"g": g, "X": X, "Y": Y, "domains": doms})
         return cases
+
+    def multi_domain_case(self, rng):
+        """Two or three target interventions, two source domains whose experiments hit different interventions, outcomes
+        downstream: exercises the domain switch of line 6 with interventions left over, followed by lines 2-4 inside a source domain."""
+        n = rng.randint(4, 6)
+        order = list(range(n)); rng.shuffle(order)
+        di = [[order[i], order[j]] for i in range(n) for j in range(i + 1, n) if rng.random() < 0.45]
+        bi = [[order[i], order[j]] for i in range(n) for j in range(i + 1, n) if rng.random() < 0.15]
+        g = {"nodes": sorted(order), "dir": di, "bid": bi}
+        y = order[-1]
+        xs = rng.sample(order[:-1], rng.randint(2, min(3, n - 1)))
+        rng.shuffle(xs)
+        k = rng.randint(1, len(xs) - 1)
+        z1, z2 = xs[:k], xs[k:]
+        others = [v for v in order if v not in xs]
+        doms = [{"Z": z1 + (rng.sample(others, 1) if rng.random() < 0.2 and len(others) > 1 else []), "W": [y] + rng.sample([v for v in others if v != y], min(1, len(others) - 1))},
+                {"Z": z2, "W": [y]}]
+        for d in doms:
+            d["Z"] = [v for v in d["Z"] if v not in d["W"]]
+            if not d["Z"]:
+                return None
+        return {"g": g, "X": xs, "Y": [y], "domains": doms}
 
     def run(self, case):
         from y0.algorithm.transport import get_nodes_to_transport, identify_target_outcomes
